@@ -143,6 +143,9 @@ func main() {
 						if !d.OK && d.O.Expect == "unsat" {
 							fn := filepath.Join(workdir, sanitize(d.O.Name)+".smt2")
 							fmt.Printf("        script: %s\n        path: %s\n", fn, d.O.Info["path"])
+							if a := d.O.Info["approx"]; a != "" {
+								fmt.Printf("        approx: %s (a sat here is a failed proof, not a counterexample)\n", a)
+							}
 							if *verbose {
 								fmt.Println(trunc(d.Res.Output, 3000))
 							}
